@@ -3,7 +3,6 @@ package props
 import (
 	"context"
 	"encoding/json"
-	"fmt"
 	"strings"
 	"time"
 
@@ -68,7 +67,7 @@ func (s *LifeScenario) Setup(k *sim.Kernel) {
 	network, addr := splitAddr(s.Service.Address)
 	k.Spawn("serve", func() {
 		for r, rd := range s.Rounds {
-			sim.Rec("round.start", fmt.Sprint(r))
+			sim.Rec("round.start", sp(r))
 			var err error
 			to := time.Duration(rd.TimeoutNs)
 			if rd.UseBind {
@@ -86,7 +85,7 @@ func (s *LifeScenario) Setup(k *sim.Kernel) {
 	})
 	for ci, ops := range s.Ctl {
 		ops := ops
-		k.Spawn(fmt.Sprintf("ctl%d", ci), func() {
+		k.Spawn(sf("ctl%d", ci), func() {
 			for _, op := range ops {
 				awaitTriggers(op.Wait, network, addr)
 				s.doOp(op)
@@ -112,13 +111,13 @@ func (s *LifeScenario) Setup(k *sim.Kernel) {
 				// an idle timeout must end this round by itself
 				continue
 			}
-			sim.Rec("janitor.shutdown.call", fmt.Sprint(r))
+			sim.Rec("janitor.shutdown.call", sp(r))
 			err := svc.Shutdown()
 			sim.Rec("janitor.shutdown.return", describeErr(err))
 		}
 	})
 	for i, c := range s.Clients {
-		k.Spawn(fmt.Sprintf("client%d", i), rawClientTask(i, s.Service, c))
+		k.Spawn(sf("client%d", i), rawClientTask(i, s.Service, c))
 	}
 }
 
@@ -127,7 +126,7 @@ type extraIface struct{ n int }
 func (e *extraIface) VarlinkDispatch(ctx context.Context, c varlink.Call, m string) error {
 	return c.ReplyMethodNotImplemented(ctx, m)
 }
-func (e *extraIface) VarlinkGetName() string        { return fmt.Sprintf("extra.iface%d", e.n) }
+func (e *extraIface) VarlinkGetName() string        { return sf("extra.iface%d", e.n) }
 func (e *extraIface) VarlinkGetDescription() string { return "interface extra" }
 
 func (s *LifeScenario) doOp(op CtlOp) {
@@ -146,7 +145,7 @@ func (s *LifeScenario) doOp(op CtlOp) {
 		sim.Rec("bind2.return", describeErr(err))
 	case "cancel":
 		if op.Arg < len(s.cancels) {
-			sim.Rec("cancel", fmt.Sprint(op.Arg))
+			sim.Rec("cancel", sp(op.Arg))
 			s.cancels[op.Arg]()
 		}
 	case "register":
@@ -154,7 +153,7 @@ func (s *LifeScenario) doOp(op CtlOp) {
 		sim.Rec("register.return", describeErr(err))
 	case "getlistener":
 		l, _ := s.svc.GetListener()
-		sim.Rec("getlistener", fmt.Sprint(l != nil))
+		sim.Rec("getlistener", sp(l != nil))
 	default:
 		panic("unknown controller op " + op.Op)
 	}
@@ -304,12 +303,12 @@ func (s *LifeScenario) Check(k *sim.Kernel) []sim.Violation {
 		perClient[owner] = append(perClient[owner], hev{e.Seq, e.Kind, e.Data})
 	}
 	for ci, cs := range s.Clients {
-		key := fmt.Sprintf("client%d", ci)
+		key := sf("client%d", ci)
 		conn := conns[ci]
 		if cs.MustServe && (conn == nil || conn.AcceptSeq == 0) && quiet {
 			why := "its dial was refused or never happened"
 			if conn != nil {
-				why = fmt.Sprintf("it connected to listener L%d at seq %d but was never accepted", conn.Lis.ID, conn.DialSeq)
+				why = sf("it connected to listener L%d at seq %d but was never accepted", conn.Lis.ID, conn.DialSeq)
 			}
 			out = append(out, vio("must-serve", "not-served", "%s dials while the service has to be serving (round 0, no Shutdown issued, idle timeout not due or another connection open) but %s", key, why))
 			continue
@@ -361,7 +360,7 @@ func (s *LifeScenario) Check(k *sim.Kernel) []sim.Violation {
 			if rd.returned || quiet {
 				prev := "the start of the run"
 				if rd.idx > 0 {
-					prev = fmt.Sprintf("round %d returned %q", rd.idx-1, rounds[rd.idx-1].retErr)
+					prev = sf("round %d returned %q", rd.idx-1, rounds[rd.idx-1].retErr)
 				}
 				out = append(out, vio("reusable", "rebind-failed", "round %d could not bind %s after %s: %s / %s", rd.idx, s.Service.Address, prev, rd.bindErr, rd.retErr))
 			}
@@ -664,17 +663,17 @@ func genShutdownTrigger(g *Gen) string {
 	case 1, 2:
 		return "acceptblocked"
 	case 3:
-		return fmt.Sprintf("acceptcalls:+%d", 1+g.IntN(3))
+		return sf("acceptcalls:+%d", 1+g.IntN(3))
 	case 4, 5:
-		return fmt.Sprintf("accepted:+%d", 1+g.IntN(2))
+		return sf("accepted:+%d", 1+g.IntN(2))
 	case 6, 7:
-		return fmt.Sprintf("dialed:+%d", 1+g.IntN(2))
+		return sf("dialed:+%d", 1+g.IntN(2))
 	case 8:
-		return fmt.Sprintf("sleep:%d", g.IntN(4000))
+		return sf("sleep:%d", g.IntN(4000))
 	case 9:
 		return "quiescent"
 	case 10:
-		return "bound," + fmt.Sprintf("sleep:%d", g.IntN(100))
+		return "bound," + sf("sleep:%d", g.IntN(100))
 	default:
 		return ""
 	}
@@ -703,7 +702,7 @@ func genC14(seed uint64, tier string) Scenario {
 	for r := 0; r < nRounds; r++ {
 		prefix := ""
 		if r > 0 {
-			prefix = fmt.Sprintf("ev:round.start:%d,", r+1)
+			prefix = sf("ev:round.start:%d,", r+1)
 		}
 		first := true
 		wait := func(tr string) string {
@@ -747,7 +746,7 @@ func genC14(seed uint64, tier string) Scenario {
 		case 8:
 			cs.StartUs = g.IntN(3000)
 		default:
-			cs.Wait = fmt.Sprintf("acceptcalls:+%d", 1+g.IntN(2))
+			cs.Wait = sf("acceptcalls:+%d", 1+g.IntN(2))
 		}
 		switch g.IntN(10) {
 		case 0:
